@@ -36,6 +36,7 @@
 #include <unicode/ucnv_err.h>
 #include <unicode/ustring.h>
 #include <unicode/udata.h>
+#include <xercesc/util/XercesVerif.hpp>
 #if (U_ICU_VERSION_MAJOR_NUM >= 2)
     #include <unicode/uclean.h>
 #endif
@@ -813,6 +814,7 @@ XMLSize_t ICULCPTranscoder::calcRequiredSize(const XMLCh* const srcText
         // Use a faux scope to synchronize while we do this
         {
             XMLMutexLock lockConverter(&fMutex);
+            XERCES_VERIF_ACCESS("ICULCPTranscoder.fConverter", this, &fMutex, 1);
 
             targetCap = ucnv_fromUChars
             (
@@ -834,6 +836,7 @@ XMLSize_t ICULCPTranscoder::calcRequiredSize(const XMLCh* const srcText
         // Use a faux scope to synchronize while we do this
         {
             XMLMutexLock lockConverter(&fMutex);
+            XERCES_VERIF_ACCESS("ICULCPTranscoder.fConverter", this, &fMutex, 1);
 
             targetCap = ucnv_fromUChars
             (
@@ -865,6 +868,7 @@ XMLSize_t ICULCPTranscoder::calcRequiredSize(const char* const srcText
     // Use a faux scope to synchronize while we do this
     {
         XMLMutexLock lockConverter(&fMutex);
+        XERCES_VERIF_ACCESS("ICULCPTranscoder.fConverter", this, &fMutex, 1);
         targetCap = ucnv_toUChars
         (
             fConverter
@@ -946,6 +950,7 @@ char* ICULCPTranscoder::transcode(const XMLCh* const toTranscode,
     int32_t targetCap;
     {
         XMLMutexLock lockConverter(&fMutex);
+        XERCES_VERIF_ACCESS("ICULCPTranscoder.fConverter", this, &fMutex, 1);
 
         targetCap = ucnv_fromUChars
         (
@@ -971,6 +976,7 @@ char* ICULCPTranscoder::transcode(const XMLCh* const toTranscode,
 
         // Lock again before we retry
         XMLMutexLock lockConverter(&fMutex);
+        XERCES_VERIF_ACCESS("ICULCPTranscoder.fConverter", this, &fMutex, 1);
         targetCap = ucnv_fromUChars
         (
             fConverter
@@ -1020,6 +1026,7 @@ XMLCh* ICULCPTranscoder::transcode(const char* const toTranscode,
     int32_t targetCap;
     {
         XMLMutexLock lockConverter(&fMutex);
+        XERCES_VERIF_ACCESS("ICULCPTranscoder.fConverter", this, &fMutex, 1);
 
         //
         //  Here we don't know what the target length will be so use 0 and
@@ -1122,6 +1129,7 @@ bool ICULCPTranscoder::transcode(const  char* const     toTranscode
     UErrorCode err = U_ZERO_ERROR;
     {
         XMLMutexLock lockConverter(&fMutex);
+        XERCES_VERIF_ACCESS("ICULCPTranscoder.fConverter", this, &fMutex, 1);
         ucnv_toUChars
         (
             fConverter
@@ -1203,6 +1211,7 @@ bool ICULCPTranscoder::transcode(   const   XMLCh* const    toTranscode
     int32_t targetCap;
     {
         XMLMutexLock lockConverter(&fMutex);
+        XERCES_VERIF_ACCESS("ICULCPTranscoder.fConverter", this, &fMutex, 1);
         targetCap = ucnv_fromUChars
         (
             fConverter
